@@ -13,7 +13,7 @@ RULES = {"C04.a", "C04.b", "C04.c", "C04.d", "C04.e", "C04.f", "C01.i"}
 def check(ctx):
     ctx.assume("token types are unique within a mode (lookaheads are keyed by terminal id)")
     kernel.analyze(ctx, RULES | {"C12.d"})
-    cursor.analyze(ctx, {"C04.c"})
+    cursor.analyze(ctx, {"C04.c", "C10.a"})    # (C10.a: the scan position a caller sets is the one the implementation gets — the public wrappers only forward)
     kernel.lookahead_wiring(ctx, ("C04.f",))
     kernel.token_type_uniqueness(ctx, "C04.g", "lookahead-table-key-is-the-token-type-but-token-types-may-repeat", "with patterns [b(?=x) -> 7, a -> 7] the input \"a\" yields no token: the lookahead of the first pattern is applied to the second (one table entry per token type, add_lookahead overwrites)")
     from .common import cache_foundation, language_foundation
